@@ -53,7 +53,9 @@ case "${1:-}" in
   C[0-9]*)
     id="$1"; tier="${2:-quick}"
     kind=plain; case "$RACE_PROPS" in *" $id "*) kind=race;; esac
-    cover=""; if [ "$tier" = thorough ] && [ -z "${VERIF_NOCOVER:-}" ]; then cover=cover; fi
+    # statement coverage in the thorough tier, except for the race-detector builds: counters that are updated
+    # atomically on every basic block make a -race binary several times slower (C09 thorough: 4 min -> over 50 min)
+    cover=""; if [ "$tier" = thorough ] && [ "$kind" = plain ] && [ -z "${VERIF_NOCOVER:-}" ]; then cover=cover; fi
     bin=$(build $kind $cover) || { echo "INCONCLUSIVE property=$id reason=build of poly or harness failed"; exit 2; }
     if [ -n "$cover" ]; then export VERIF_COVER=1 GOCOVERDIR="$PWD/.work/cov-parent-$$"; mkdir -p "$GOCOVERDIR"; "$bin" check "$id" "$tier"; rc=$?; rm -rf "$GOCOVERDIR"; exit $rc; fi
     exec "$bin" check "$id" "$tier" ;;
